@@ -51,6 +51,11 @@ def load_known(pid):
 def _worker(args):
     pid, spec, tier, base_seed, index, nshards, deadline = args
     try:
+        # watchdog: a shard that makes no end (a spin in generated code) must become a harness error, not a hang
+        import faulthandler
+
+        limit = float(os.environ.get("VPBT_SHARD_TIMEOUT", "2700" if tier == "quick" else "14400"))
+        faulthandler.dump_traceback_later(limit, exit=True)
         mod = load_module(pid)
         ctx = Ctx(tier, base_seed, index, nshards, deadline)
         mod.run_shard(spec, ctx)
@@ -166,9 +171,16 @@ def run_check(pid, tier, seed, procs=16, budget_s=None):
     if procs <= 1 or len(jobs) <= 1:
         results = [_worker(j) for j in jobs]
     else:
+        from concurrent.futures import ProcessPoolExecutor
+        from concurrent.futures.process import BrokenProcessPool
+
         ctxm = multiprocessing.get_context("fork")
-        with ctxm.Pool(min(procs, len(jobs))) as pool:
-            results = list(pool.imap_unordered(_worker, jobs, chunksize=1))
+        try:
+            with ProcessPoolExecutor(min(procs, len(jobs)), mp_context=ctxm) as pool:
+                results = list(pool.map(_worker, jobs))
+        except BrokenProcessPool:
+            sys.stderr.write("HARNESS ERROR in %s: a shard process died (watchdog timeout or crash)\n" % pid)
+            return 2
     errors = [r[1] for r in results if r[0] == "error"]
     if errors:
         sys.stderr.write("HARNESS ERROR in %s:\n%s\n" % (pid, errors[0]))
